@@ -871,7 +871,7 @@ FNS_HEADER = """(* GENERATED by translator/gen.py from the current /repo working
    as expressions); Props/C04.v proves that they are the lookups of Model/History.v. *)
 From Coq Require Import List NArith ZArith Bool.
 Import ListNotations.
-From MHL Require Import Model.History Model.Emit.
+From MHL Require Import Gen.Generated Model.History Model.Emit.
 Definition is_none {A} (o : option A) : bool := match o with None => true | Some _ => false end.
 Definition opt_action_eqb (a b : option action) : bool :=
   match a, b with Some x, Some y => action_eqb x y | None, None => true | _, _ => false end.
@@ -1069,6 +1069,56 @@ def tx_latest_number(fn, item):
             "    if negb (N.eqb (g_no hash_list) 0) then g_no hash_list else latest_number) hash_lists 0%N.\n")
 
 
+def tx_exit_cond(e, item):
+    if isinstance(e, ast.BoolOp):
+        op = " && " if isinstance(e.op, ast.And) else " || "
+        return "(" + op.join(tx_exit_cond(v, item) for v in e.values) + ")"
+    if isinstance(e, ast.UnaryOp) and isinstance(e.op, ast.Not):
+        if ast.unparse(e.operand) == "exception":
+            return "(is_none exception)"
+        return "(negb " + tx_exit_cond(e.operand, item) + ")"
+    if isinstance(e, ast.Name) and e.id == "found_single_file":
+        return "found_single_file"
+    if isinstance(e, ast.Compare) and len(e.ops) == 1 and len(e.comparators) == 1:
+        l, op, r = e.left, e.ops[0], e.comparators[0]
+        if isinstance(l, ast.Name) and l.id in ("num_new_files", "num_failed_verifications") and isinstance(op, ast.Gt) and isinstance(r, ast.Constant) and r.value == 0:
+            return f"(Nat.ltb 0 {l.id})"
+        if ast.unparse(l) == "single_file" and isinstance(op, ast.IsNot) and isinstance(r, ast.Constant) and r.value is None:
+            return "single_file_given"
+    fail(item, f"condition outside the translated fragment: {ast.unparse(e)}")
+
+
+def tx_exit_decision(repo, fn_name, coq_name):
+    """the tail of a verifying command: exception = test_for_missing_files(...); if C: exception = errors.X() ...; if exception: raise exception"""
+    item = fn_name + ": exit decision"
+    mod = parse(repo, "ascmhl/commands.py")
+    fn = find_func(mod.body, fn_name, item)
+    tm = find_func(mod.body, "test_for_missing_files", "test_for_missing_files")
+    rets = [ast.unparse(r) for r in ast.walk(tm) if isinstance(r, ast.Return)]
+    if sorted(rets) != ["return None", "return errors.CompletenessCheckFailedException()"]:
+        fail("test_for_missing_files", f"returns {rets}")
+    body = fn.body
+    starts = [k for k, st in enumerate(body) if isinstance(st, ast.Assign) and ast.unparse(st.targets[0]) == "exception"]
+    if len(starts) != 1 or ast.unparse(body[starts[0]].value) != "test_for_missing_files(not_found_paths, root_path, ignore_spec)":
+        fail(item, "expected one top-level `exception = test_for_missing_files(not_found_paths, root_path, ignore_spec)`")
+    tail = body[starts[0] + 1:]
+    if not tail or ast.unparse(tail[-1]) != "if exception:\n    raise exception":
+        fail(item, "the function does not end with `if exception: raise exception`")
+    codes = dict(EXC_CLASSES)
+    lets = ["let exception := if missing then Some exit_completeness else None in"]
+    for st in tail[:-1]:
+        ok = isinstance(st, ast.If) and not st.orelse and len(st.body) == 1 and isinstance(st.body[0], ast.Assign) and ast.unparse(st.body[0].targets[0]) == "exception"
+        if ok:
+            v = st.body[0].value
+            ok = isinstance(v, ast.Call) and not v.args and not v.keywords and ast.unparse(v.func).startswith("errors.") and ast.unparse(v.func)[7:] in codes
+        if not ok:
+            fail(item, f"statement outside the translated fragment: {ast.unparse(st)}")
+        lets.append(f"let exception := if {tx_exit_cond(st.test, item)} then Some {codes[ast.unparse(v.func)[7:]]} else exception in")
+    return (f"(* commands.py:{fn_name} -- the exit decision (missing: test_for_missing_files returned an exception) *)\n"
+            f"Definition {coq_name} (missing single_file_given found_single_file : bool) (num_new_files num_failed_verifications : nat) : Z :=\n  "
+            + "\n  ".join(lets) + "\n  match exception with Some code => code | None => 0%Z end.\n")
+
+
 def generate_fns(repo):
     """-> (text of GeneratedFns.v, [error strings]); a function whose source is outside the translated fragment is left out
     (its obligations then do not build -- only the property file that names it is affected), the others are still emitted"""
@@ -1090,6 +1140,8 @@ def generate_fns(repo):
     add(lambda: tx_collect(hist_fn("find_existing_hash_formats_for_path"), "src_existing_formats", "find_existing_hash_formats_for_path"))
     add(lambda: tx_to_generate(repo))
     add(lambda: tx_latest_number(hist_fn("latest_generation_number"), "latest_generation_number"))
+    add(lambda: tx_exit_decision(repo, "verify_entire_folder", "src_verify_exit"))
+    add(lambda: tx_exit_decision(repo, "diff_entire_folder_against_full_history_subcommand", "src_diff_exit"))
     return "\n".join(parts), errors
 
 
@@ -1145,7 +1197,7 @@ def main(argv):
             with open(path + ".tmp", "w", encoding="utf-8") as fh:
                 fh.write(content)
             os.replace(path + ".tmp", path)
-    print(json.dumps({"ok": True, "changed": changed, "items": len(summary) + 5 - len(fn_errors), "shape_warnings": WARNINGS,
+    print(json.dumps({"ok": True, "changed": changed, "items": len(summary) + 7 - len(fn_errors), "shape_warnings": WARNINGS,
                       **({"function_translation_failed": fn_errors} if fn_errors else {})}))
     return 0
 
